@@ -41,6 +41,13 @@ Lemma call_obs_eqb_refl x : call_obs_eqb x x = true.
 Proof. unfold call_obs_eqb. rewrite (option_eqb_refl _ call_eqb_refl), rb_eqb_refl. reflexivity. Qed.
 Lemma bool_eqb_refl b : Bool.eqb b b = true.
 Proof. destruct b; reflexivity. Qed.
+Lemma dict_equiv_refl d : dict_equiv d d = true.
+Proof.
+  unfold dict_equiv. rewrite Nat.eqb_refl. apply forallb_forall. intros x _.
+  apply (option_eqb_refl Nat.eqb Nat.eqb_refl).
+Qed.
+
+
 
 (* ---- the signature of a well-formed function is a well-formed signature ------------------- *)
 Definition rank_ok (p q : param) : bool :=
@@ -146,6 +153,7 @@ Definition obs_of_built (g : built) : built_obs :=
 
 Definition model_case (f : pyfunc) (steps : list step) (fwd : bool) (calls : list call) : c13_case :=
   mkCase f steps fwd calls (func_sig f) (f_async f) (map (call_func f) calls)
+         (func_sig f) (f_dict f)
          (map obs_of_built (fst (run_steps f steps))) (snd (run_steps f steps))
          (match snd (run_steps f steps) with
           | None => map (call_top f (rev (fst (run_steps f steps))) fwd) calls
@@ -345,11 +353,11 @@ Theorem model_holds f steps fwd calls :
   holds (model_case f steps fwd calls) = true.
 Proof.
   intros WF NE NZ NDc PL. unfold holds, model_case.
-  cbn [k_f k_fsig k_fasync k_calls k_direct k_steps k_forward k_levels k_fail k_top_calls].
+  cbn [k_f k_fsig k_fasync k_calls k_direct k_steps k_forward k_levels k_fail k_top_calls k_fsig_after k_fdict_after].
   rewrite (func_sig_wf f WF).
   assert (DIR : map (bind (sg_params (func_sig f))) calls = map (call_func f) calls).
   { apply map_ext. intro c. unfold call_func. rewrite (sig_of_func_sig f (wf_len f WF)). reflexivity. }
-  rewrite DIR, (list_eqb_refl _ rb_eqb_refl). cbn [andb].
+  rewrite DIR, (list_eqb_refl _ rb_eqb_refl), sig_eqb_refl, dict_equiv_refl. cbn [andb].
   destruct (levels_model f steps f WF) as [top [LO REST]].
   { repeat split. }
   { exact NZ. }
@@ -369,12 +377,6 @@ Proof.
 Qed.
 
 (* ... and the comparison with the model accepts the model's own observation *)
-Lemma dict_equiv_refl d : dict_equiv d d = true.
-Proof.
-  unfold dict_equiv. rewrite Nat.eqb_refl. apply forallb_forall. intros x _.
-  apply (option_eqb_refl Nat.eqb Nat.eqb_refl).
-Qed.
-
 Lemma forall2b_level_agree gs :
   Forall (fun g => exists s, sig_of (b_func g) = Ok s) gs -> forall2b level_agree gs (map obs_of_built gs) = true.
 Proof.
@@ -401,9 +403,9 @@ Theorem model_agrees f steps fwd calls :
   agree (model_case f steps fwd calls) = true.
 Proof.
   intros WF NZ. unfold agree, model_case.
-  cbn [k_f k_fsig k_fasync k_calls k_direct k_steps k_forward k_levels k_fail k_top_calls].
+  cbn [k_f k_fsig k_fasync k_calls k_direct k_steps k_forward k_levels k_fail k_top_calls k_fsig_after k_fdict_after].
   rewrite (sig_of_func_sig f (wf_len f WF)). cbn [res_eqb]. rewrite sig_eqb_refl, bool_eqb_refl.
-  rewrite (list_eqb_refl _ rb_eqb_refl). cbn [andb].
+  rewrite (list_eqb_refl _ rb_eqb_refl), dict_equiv_refl. cbn [andb].
   pose proof (run_steps_sigs steps f WF NZ) as SG.
   destruct (run_steps f steps) as [gs e]. cbn [fst snd] in *.
   rewrite (forall2b_level_agree gs SG), (option_eqb_refl _ exn_eqb_refl). cbn [andb].
